@@ -22,6 +22,12 @@
 #include "nmtools/array/view/repeat.hpp"
 #include "nmtools/array/view/concatenate.hpp"
 #include "nmtools/array/view/cumsum.hpp"
+#include "nmtools/array/view/atleast_nd.hpp"
+#include "nmtools/array/view/broadcast_to.hpp"
+#include "nmtools/array/view/moveaxis.hpp"
+#include "nmtools/array/view/take.hpp"
+#include "nmtools/array/view/squeeze.hpp"
+#include "nmtools/array/view/flatten.hpp"
 #include "nmtools/array/eval.hpp"
 #include "nmtools/utility/cast.hpp"
 #include "show.hpp"
@@ -125,6 +131,14 @@ template <typename K> static std::string run_kind(K k, int op, int variant) {
         case 18: return report(a, view::sum(a, 0, nm::None, nm::None, nm::True));
         case 19: return report(a, view::transpose(view::sum(a, 2)));
         case 20: return report(a, view::flip(view::repeat(a, 2, 1), 2));
+        // more view kinds whose static knowledge is derived by rules of their own (dimension-raising, bounded-dim arithmetic)
+        case 21: return report(a, view::atleast_nd(a, 4_ct));
+        case 22: return report(a, view::atleast_nd(a, 5_ct));
+        case 23: { const auto s = nm::shape(a); return report(a, view::broadcast_to(a, std::array<size_t,4>{2, (size_t)nm::at(s,0), (size_t)nm::at(s,1), (size_t)nm::at(s,2)})); }
+        case 24: return report(a, view::moveaxis(a, 0, 2));
+        case 25: return report(a, view::take(a, std::array<int,2>{1, 0}, 1));
+        case 26: return report(a, view::squeeze(view::sum(a, 0, nm::None, nm::None, nm::True)));
+        case 27: return report(a, view::flatten(a));
         default: return "unsupported";
     }
     }
